@@ -1,18 +1,4 @@
-#![allow(dead_code)]
-mod base;
-mod bfs;
-mod checks_e1;
-mod checks_e2;
-mod checks_e3;
-mod cmds;
-mod e1;
-mod e2;
-mod e3;
-mod e5;
-mod e_writer;
-mod refs;
-mod report;
-mod session;
+use mcx::*;
 
 use report::Report;
 
@@ -26,8 +12,8 @@ fn main() {
     let tier = args[2].clone();
     let seed: u64 = args[3].parse().unwrap_or(0);
     let out = args[4].clone();
-    if args.len() >= 7 && args[5] == "--replay" {
-        let txt = std::fs::read_to_string(&args[6]).expect("read replay file");
+    if let Some(pos) = args.iter().position(|a| a == "--replay") {
+        let txt = std::fs::read_to_string(&args[pos + 1]).expect("read replay file");
         let j: serde_json::Value = serde_json::from_str(&txt).expect("parse replay file");
         let name = j["exploration"].as_str().unwrap_or("").to_string();
         let init = j["init"].as_str().unwrap_or("initial").to_string();
@@ -37,14 +23,15 @@ fn main() {
     session::install_quiet_panic_hook();
     let mut rep = Report { prop: prop.clone(), tier: tier.clone(), ..Default::default() };
     match prop.as_str() {
-        "C01" => checks_e1::c01(&mut rep, &tier, seed),
+        "C01" => checks_e1::c01(&mut rep, &tier, seed, "C01"),
         "C02" => checks_e2::c02(&mut rep, &tier, seed),
         "C03" => checks_e1::c03(&mut rep, &tier, seed),
         "C04" => checks_e2::c04(&mut rep, &tier, seed),
-        "C05" => checks_e1::c05(&mut rep, &tier, seed),
+        "C05" => checks_e1::c05(&mut rep, &tier, seed, "C05"),
         "C06" => checks_e1::c06(&mut rep, &tier, seed, "C06"),
         "C07" => checks_e3::c07(&mut rep, &tier),
         "C08" => checks_e3::c08(&mut rep, &tier),
+        "C16" => checks_e1::c16(&mut rep, &tier, seed),
         "C17" => checks_e3::c17(&mut rep, &tier),
         "C10" => checks_e1::c10(&mut rep, &tier, seed),
         "C13" => checks_e1::c13(&mut rep, &tier, seed),
